@@ -331,6 +331,7 @@ func RunCheck(o CheckOpts) int {
 	}
 	// verdicts
 	exit := 0
+	machinery := false
 	violations := 0
 	var lines []string
 	discharged, undecided, known := 0, 0, 0
@@ -346,12 +347,26 @@ func RunCheck(o CheckOpts) int {
 		case "discharged":
 			discharged++
 		case "vacuous":
+			if ledgerObs != nil {
+				// reachable on the pinned tree, not on this one: the code changed under the assertion
+				undecided++
+				lines = append(lines, fmt.Sprintf("UNDECIDED property=%s obligation=%s reason=assertion point no longer reachable on this tree", o.Property, ob.Name))
+				continue
+			}
 			lines = append(lines, fmt.Sprintf("MACHINERY-ERROR property=%s vacuity probe failed: %s (%s)", o.Property, ob.Name, ob.Reason))
-			exit = 2
+			machinery = true
 		case "undecided":
 			undecided++
 			lines = append(lines, fmt.Sprintf("UNDECIDED property=%s obligation=%s reason=%s", o.Property, ob.Name, ob.Reason))
 		case "failed", "unknown":
+			if ob.Kind == "anchor" || ob.Kind == "locks-declared" && false {
+				// the contract's target (call site, loop, return) no longer exists: cannot tell
+				ob.Result = "undecided"
+				ob.Reason = "contract anchor no longer matches an instruction (code restructured)"
+				undecided++
+				lines = append(lines, fmt.Sprintf("UNDECIDED property=%s obligation=%s reason=%s", o.Property, ob.Name, ob.Reason))
+				continue
+			}
 			// known finding?
 			isKnown := false
 			for _, k := range kf.Known {
@@ -404,11 +419,20 @@ func RunCheck(o CheckOpts) int {
 		lines = append(lines, fmt.Sprintf("UNDECIDED property=%s obligation=%s/* reason=function under contract not found", o.Property, n))
 	}
 	for _, m := range contractErrors {
+		if ledgerObs != nil && strings.Contains(m, "unknown identifier") {
+			// a contract clause names a local that no longer exists: the code changed under the contract
+			undecided++
+			lines = append(lines, fmt.Sprintf("UNDECIDED property=%s reason=%s", o.Property, m))
+			continue
+		}
 		lines = append(lines, "MACHINERY-ERROR "+m)
-		exit = 2
+		machinery = true
 	}
 	if len(obs) == 0 {
 		lines = append(lines, fmt.Sprintf("MACHINERY-ERROR property=%s zero obligations generated", o.Property))
+		machinery = true
+	}
+	if machinery && exit == 0 {
 		exit = 2
 	}
 	sort.Strings(lines)
@@ -421,7 +445,7 @@ func RunCheck(o CheckOpts) int {
 	if !o.NoEvidence {
 		writeEvidence(o, prog, cs, results, obs, discharged, undecided, known, violations, float64(solverMs)/1000, wall)
 	}
-	if o.WriteLedger {
+	if o.WriteLedger && exit == 0 {
 		updateLedger(o, results, obs)
 	}
 	return exit
